@@ -355,6 +355,29 @@ Definition dcase := (config * config * keytype * N * outcome)%type.
 Definition check_dcase (x : dcase) : bool :=
   let '(c, s, k, d, obs) := x in outcome_eqb (negotiate_downgraded c s k d) obs.
 
+(* ---- key agreement: what both ends feed into the master secret (RFC 5246 8.1.2: the finite-field
+   DH value Z with its leading zero bytes stripped; RFC 8422 5.10: the x coordinate as a string of
+   the field's length, zeros kept).  [z] is the shared value computed by the harness with math/big /
+   crypto/ecdh; [server] and [client] are what processClientKeyExchange and the client's side return
+   for the same private values. *)
+Fixpoint to_be (fuel : nat) (n : N) (acc : bytes) : bytes :=
+  match fuel with
+  | O => acc
+  | S f => if n =? 0 then acc else to_be f (n / 256) ((n mod 256) :: acc)
+  end.
+Definition dhe_premaster (z : N) : bytes := to_be (S (N.to_nat (N.log2 z))) z [].
+Definition ecdhe_premaster (len : N) (z : N) : bytes :=
+  let b := dhe_premaster z in repeat 0 (N.to_nat len - length b)%nat ++ b.
+
+Inductive kcase :=
+| KDhe (z : N) (server client : bytes)
+| KEcdhe (len z : N) (server client : bytes).
+Definition check_kcase (k : kcase) : bool :=
+  match k with
+  | KDhe z sv cl => bytes_eqb sv (dhe_premaster z) && bytes_eqb cl (dhe_premaster z)
+  | KEcdhe len z sv cl => bytes_eqb sv (ecdhe_premaster len z) && bytes_eqb cl (ecdhe_premaster len z)
+  end.
+
 (* function-level cases (hooks on the unexported functions) *)
 Inductive fcase :=
 | FSupported (c : config) (out : list N)
